@@ -10,7 +10,7 @@ from core import cfg_text
 CTOR_OPS = {"default", "with_capacity", "new", "init", "from_vec", "from_box"}
 INSERT_OPS = {"insert_row", "push_row", "insert_col", "push_col"}
 REMOVE_OPS = {"remove_row", "pop_row", "remove_col", "pop_col"}
-DRAIN_OPS = {"d_next", "d_next_back", "d_len", "d_drop"}
+DRAIN_OPS = {"d_next", "d_next_back", "d_len", "d_drop", "d_nth", "d_nth_back", "d_count", "d_last", "d_collect", "d_rcollect"}
 
 HIST_OP_PROPS = {
     "clear": set(), "swap_dimensions": set(), "reserve": set(), "reserve_exact": set(), "shrink_to_fit": set(),
@@ -413,6 +413,11 @@ def p_C03(ctx):
         acc_replays(ctx, r3, [("dev", "u32"), ("release", "u32")], "views-depth3")
     acc_random(ctx, ["read", "write"], 3000 if ctx.quick else 40000, 12, profile="dev")
     giant_check(ctx, lambda c: c["t"] == "view")
+    # a window turned into an owned array (From<TooDeeView> / From<TooDeeViewMut> for TooDee) holds exactly the window's cells
+    m = 3 if ctx.quick else 4
+    rh = hist_tlc_edges(ctx, "from-view", m, m, ops=("from_view",))
+    for prof, elem, cap in [("dev", "elem", 0), ("release", "u32", 1)]:
+        ctx.replay(rh.cases_path, attr_hist, profile=prof, elem=elem, cap=cap, label="from-view")
 
 
 MUT_GROUPS = ["write", "prim", "copy", "move", "sortrow", "sortcol"]
